@@ -36,10 +36,15 @@ def main(args):
             g = find_grammar(r['grammar'])
             if g is None: print('unknown grammar', r['grammar']); return 2
             o = r.get('opts') or [0, 0, 0]
-            c = parsecheck.ParseCase(wd, g, r['L'], r.get('asserts') or ['accept', 'value', 'messages', 'positions'], ws=o[0], nl=o[1], verbose=o[2], extra_defs=r.get('extra_defs') or ())
+            if r.get('ctx_rules'):
+                import copy
+                g = copy.deepcopy(g)
+                for i in r['ctx_rules']: g.rules[i]['f'] = 'ctxhash'
+            c = parsecheck.ParseCase(wd, g, r['L'], r.get('asserts') or ['accept', 'value', 'messages', 'positions'], ws=o[0], nl=o[1], verbose=o[2], extra_defs=r.get('extra_defs') or (),
+                                     variant=r.get('variant', 'plain'), ctxkind=r.get('ctxkind', 0))
             c.build_native()
             if not c.native.get('real'): print('native build failed:', c.native.get('err')); return 2
-            res = c.run_native('real', list(bytes.fromhex(r['input_hex'])))
+            res = c.run_native('real', list(bytes.fromhex(r['input_hex'])), r.get('opts_value'), extra=r.get('extra'))
         print('input', r['input_hex'], '->', res)
         if res and res['verdict'] in ('FAIL', 'CRASH'):
             print('VIOLATION property=%s replay=%s' % (r['property'], args[0])); return 1
